@@ -87,13 +87,16 @@ class MFileHandler(logging.Handler):
     """logging.FileHandler over MFS: opened with mode 'w' (truncate), each record flushed at the handle's own offset."""
     instances = []
 
-    def __init__(self, filename, mode='a', **kw):
+    def __init__(self, filename, mode='a', encoding=None, delay=False, errors=None):
         logging.Handler.__init__(self)
         self.baseFilename = filename
-        self.stream = filename.open(mode)
+        self.mode = mode
+        self.stream = None if delay else filename.open(mode)      # delay: opened (and truncated) by the first record
         MFileHandler.instances.append(self)
 
     def emit(self, record):
+        if self.stream is None:
+            self.stream = self.baseFilename.open(self.mode)
         msg = record.msg
         if isinstance(msg, Sym):
             self.stream.write(mfs.Chunks([msg, '\n']))
